@@ -16,11 +16,11 @@ LEX = {
     "n_x": b"x", "n_VAR": b"VAR_A", "n_acc": "été".encode(), "n_my": b"mytask", "n_long": b"build_all", "n_T": b"T", "n_us": b"_priv",
     "n_tasks": b"tasks", "n_taskdir": b"task_dir", "n_heb": "task\u05d0".encode(), "n_cyr": "\u0441\u0431\u043e\u0440\u043a\u0430".encode(), "n_cjk": "\u4efb\u52a1".encode(),
     "s_ago": b"a.go", "s_empty": b"", "s_glob": b"**/*.go", "s_uni": "hé".encode(), "s_hash": b"a#b", "s_sp": b"a b", "s_brace": b"a{b",
-    "s_dir": b"./bin/main", "s_dot": b".", "s_tpl": b"{{.X}}", "s_bs": b"C:\\tools\\x", "s_tab": b"a\tb", "s_pct": b"80%", "s_ctl": b"a\x01b",
+    "s_dir": b"./bin/main", "s_dot": b".", "s_tpl": b"{{.X}}", "s_bs": b"C:\\tools\\x", "s_tab": b"a\tb", "s_pct": b"80%", "s_ctl": b"a\x01b", "s_esc": b"C:\\temp\\new", "s_dbl": b"a\\\\b", "s_hex": b"\\x41",
     "c_plain": b" hello", "c_empty": b"", "c_ws": b"  ", "c_kw": b" task t() {", "c_nosp": b"nospace", "c_uni": " café".encode(), "c_hash": b" a # b",
     "c_assign": b" x := \"1\"",
     "m_go": b"go test ./...", "m_tpl": b"echo {{.VAR_A}}", "m_x": b"x", "m_pipe": b'echo "a b" | wc -l', "m_adj": b"cp{{.X}}y z", "m_flag": b"rm -rf ./bin",
-    "m_env": b"GOOS=linux go build", "m_two": b"echo {{.A}} {{.B}}", "m_semi": b"cd dir; ls", "m_pct": b"date +%Y-%m-%d", "m_bs": b"grep '\\d+' x", "m_open": b"echo {{", "m_close": b"ab }} y",
+    "m_env": b"GOOS=linux go build", "m_two": b"echo {{.A}} {{.B}}", "m_semi": b"cd dir; ls", "m_pct": b"date +%Y-%m-%d", "m_bs": b"grep '\\d+' x", "m_open": b"echo {{", "m_close": b"ab }} y", "m_adj2": b"echo {{.A}}{{.B}}", "m_adj3": b"run {{.A}}{{.B}}{{.C}} x",
     "f_join": b"join", "f_exec": b"exec",
 }
 NAMES = [k for k in LEX if k.startswith("n_")]
@@ -226,7 +226,7 @@ EXTRA_MC = []
 
 # ---------------------------------------------------------------- loose layouts (accepted-but-unusual texts) for C07 C11 C15 (and C08 C16)
 L_IDENTS = [b"x", b"tasks", b"taskx", b"task", b"join", b"T", "é".encode(), b"_a", b"mytask", b"exec", b"task_a", "task\u05d0".encode(), "\u05d0".encode()]
-L_STRS = [b'"a"', b'""', b'"task"', b'"*.go"', b'"a b"', b'"a\\b"', b'"50%"', b'"x\ty"']
+L_STRS = [b'"a"', b'""', b'"task"', b'"*.go"', b'"a b"', b'"a\\b"', b'"50%"', b'"x\ty"', b'"\nabc"', b'"\n"']
 L_COMMENTS = [b" c", b"", b" ", b"x", b" task t() {", b"#"]
 L_CMDS = [b"go build", b"x", b"echo {{.x}}", b"ls -l", b"task x", b"echo a\r", b"ls \r", b"a\r\r", b"b  ", b"echo {{", b"x}} y", b"echo {{ .x", b"}} z"]
 L_SEPS = [b"", b"", b" ", b" ", b"\n", b"\n", b"\t", b"  ", b"\n\n", b" \n", b"\r\n", b"\r", b"\r "]
@@ -278,6 +278,18 @@ def loose_text(rnd):
                 if i < n - 1 or rnd.random() < 0.6:
                     toks.append(b"\n")
             toks.append(b"}")
+    # one random token-level edit in a third of the texts: syntax errors in the middle of multi-line constructs
+    if rnd.random() < 0.35 and toks:
+        k = rnd.randrange(len(toks))
+        op = rnd.random()
+        if op < 0.3:
+            del toks[k]
+        elif op < 0.5:
+            toks.insert(k, toks[k])
+        elif op < 0.7 and k + 1 < len(toks):
+            toks[k], toks[k + 1] = toks[k + 1], toks[k]
+        else:
+            toks.insert(k, rnd.choice([b"{", b"}", b"(", b")", b",", b"->", b":=", b"#", b'"', b"\n", b"task", b"x"]))
     out = b""
     for i, t in enumerate(toks):
         out += t
